@@ -28,6 +28,19 @@ except Exception as _ex:
     KERNELS_GEN_STATUS = "unparsed generator-failed: %s" % str(_ex)[:200]
     KERNELS_GEN_DETAIL = []
 
+# round 5: coq/gen/BitsBodiesGen.v - the STRAIGHT-LINE bodies of shift_ops.rs (shl_one_spilled, shl_dword_spilled, shl_dword, shl_large_ref,
+# shl_large, shr_dword, shr_large, shr_large_ref), bits.rs (with_bit_dword_spilled, with_bit_large, clear_high_bits_large,
+# next_power_of_two_large, TypedRepr::{next_power_of_two, set_bit, clear_bit, clear_high_bits, split_bits}) and repr.rs (Repr::ones) by the typed
+# symbolic executor of tools/translate_c09_r5.py: casts as explicit truncations, machine shifts with their width;
+# Int/BitsBodiesGenProof.v proves each equal to the hand-written model, Int/BitsBodiesGenSpec.v composes with the specification.
+try:
+    import translate_c09_r5
+    BODIES_GEN_STATUS = translate_c09_r5.generate(core.REPO, os.path.join(core.COQ, "gen"))
+    BODIES_GEN_DETAIL = ["%s:%s" % (n, st.split(" ", 1)[0]) for n, st in translate_c09_r5.LAST_RESULTS]
+except Exception as _ex:
+    BODIES_GEN_STATUS = "unparsed generator-failed: %s" % str(_ex)[:200]
+    BODIES_GEN_DETAIL = []
+
 
 def extra_phase(tier, seed, exes, oracle):
     word = FORMS_GEN_STATUS.split(" ", 1)[0]
@@ -35,11 +48,22 @@ def extra_phase(tier, seed, exes, oracle):
     hist = {"translator_c09:BitsFormsGen:" + word: 1, "translator_c09:BitsKernelsGen:" + kword: 1}
     for d in KERNELS_GEN_DETAIL:
         hist["FRAGMENT:BitsKernelsGen:" + d] = 1
+    bword = BODIES_GEN_STATUS.split(" ", 1)[0]
+    hist["translator_c09:BitsBodiesGen:" + bword] = 1
+    for d in BODIES_GEN_DETAIL:
+        hist["FRAGMENT:BitsBodiesGen:" + d] = 1
     return {
         "evaluations": 0,
         "hist": hist,
         "nontrivial": [],
-        "samples": [{"fragment": "coq/gen/BitsKernelsGen.v (tools/translate_c09_r4.py over the loop-to-fold translator tools/translate_c01_r4.py, "
+        "samples": [{"fragment": "coq/gen/BitsBodiesGen.v (tools/translate_c09_r5.py, typed symbolic executor over the parser of tools/translate_c01_r4.py, "
+                                 "from integer/src/shift_ops.rs, bits.rs, repr.rs; casts as cast_u32 / cast_usize, machine shifts with their width)",
+                     "status": BODIES_GEN_STATUS,
+                     "tied_by": "C09_gen_shl_bodies, C09_gen_shr_bodies, C09_gen_bit_bodies, C09_gen_npt_ones_bodies, C09_gen_ref_bodies, C09_gen_ref_bodies2 (generated = hand-written models), "
+                                "C09_gen_shift_bodies_spec, C09_gen_bit_bodies_spec (generated meets the specification); every << >> set_bit clear_bit "
+                                "clear_high_bits split_bits next_power_of_two ones bit bit_len trailing_zeros trailing_ones count_ones count_zeros is_power_of_two case also runs through the generated bodies"
+                                if BODIES_GEN_STATUS == "ok" else "correspondence run only for the functions listed unparsed (last good copy kept, marked STALE)"},
+                    {"fragment": "coq/gen/BitsKernelsGen.v (tools/translate_c09_r4.py over the loop-to-fold translator tools/translate_c01_r4.py, "
                                  "from integer/src/math.rs, shift.rs, bits.rs)",
                      "status": KERNELS_GEN_STATUS,
                      "tied_by": "C09_gen_shift_kernels, C09_gen_logic_kernels, C09_gen_scan_kernels, C09_gen_count_lowbits_kernels "
@@ -72,7 +96,7 @@ HARNESS_BIN = "c09"
 NCASES = {"quick": 6000, "thorough": 150000}
 CASE_TIMEOUT = {"quick": 20, "thorough": 60}
 
-LEVEL_TEXT = ("Machine-checked Coq theorems (110 pinned, all closed under the global context), for every word size w > 0 (w >= 8 where "
+LEVEL_TEXT = ("Machine-checked Coq theorems (119 pinned, all closed under the global context), for every word size w > 0 (w >= 8 where "
               "C01's word-level add/sub theorems are cited), every operand "
               "length, sign, bit position and shift count: (1) the sign-case tables of & | ^ ! >> regenerated from the Rust source on "
               "every run equal Coq's infinite two's-complement operations on Z; (2) word-level as-is models (little-endian word lists, "
@@ -121,7 +145,19 @@ LEVEL_TEXT = ("Machine-checked Coq theorems (110 pinned, all closed under the gl
               "Z.lnot / Z.shiftr with a normalised result; (12) shift counts and positions beyond the operand (2^32 + k, 2^48 + k, "
               "2^63 + k, usize::MAX - k) have constant specifications (theorems), the word-level models never form 2^n, and the run "
               "generates such counts for every >> form, bit, clear_bit, clear_high_bits, split_bits and << of zero. Every case with heap "
-              "operands is also run through the regenerated kernels and the word-level IBig tables.")
+              "operands is also run through the regenerated kernels and the word-level IBig tables. "
+              "Round 5: (13) the STRAIGHT-LINE bodies around the loops are regenerated from the source on every run as well "
+              "(coq/gen/BitsBodiesGen.v by the typed symbolic executor tools/translate_c09_r5.py: shl_one_spilled, shl_dword_spilled, "
+              "shl_dword, shl_large_ref, shl_large with the capacity test, shr_dword, shr_large, shr_large_ref incl. the slice match, "
+              "with_bit_dword_spilled, with_bit_large, clear_high_bits_large, next_power_of_two_large, TypedRepr::{next_power_of_two, "
+              "set_bit, clear_bit, clear_high_bits, split_bits}, TypedReprRef::{bit, bit_len, are_low_bits_nonzero, is_power_of_two, trailing_zeros, trailing_ones, count_ones, count_zeros, trailing_ones_neg}, are_dword_low_bits_nonzero, Repr::ones), with every `as u32` / `as usize` cast as an explicit "
+              "truncation (cast_u32 = mod 2^32, cast_usize = mod 2^uw) and every << >> on a Word / DoubleWord carrying its width "
+              "(count modulo the width, result truncated); each generated body is PROVED equal to the hand-written model for every "
+              "word size with 2w < 2^32 and 2w < 2^uw - which needs the count to be provably in range at each cast / shift (guards "
+              "rhs < DWORD_BITS, rhs <= leading_zeros, % WORD_BITS) - and, composed with the earlier theorems, proved to compute "
+              "Z.shiftl / Z.shiftr / set / clear / mask / split / next power of two / 2^n - 1 as a normalised Repr; the seeded "
+              "truncation of round 4 (shr_dword's count cast to u32) is refuted as a definition (C09_shr_dword_trunc32_refuted). Every "
+              "<< >> set_bit clear_bit clear_high_bits split_bits next_power_of_two ones case of the run also goes through the generated bodies.")
 LEVEL_NOTE = ("Trusted: Coq kernel, translator dictionaries (tools/translate.py: bitand->Z.land ...; tools/translate_c09_r3.py: "
               "Repr::from_dword / lowest_dword / *_large(_dword) / len comparisons rendered as the kernels of Int/BitsKernels.v), "
               "extraction incl. FastZ.v directives, zarith, harness. Proved about hand-written models of the kernels, tied to the code "
@@ -132,16 +168,22 @@ LEVEL_NOTE = ("Trusted: Coq kernel, translator dictionaries (tools/translate.py:
               "by the Z function of the same meaning. Value level only (other properties' subject): <Big>::from(primitive) and TryFrom "
               "(C06), the exact capacity field of heap results (C17; the run checks len <= cap <= len + len/4 + 4). Round 4: the loop "
               "kernels are no longer only hand-transcribed (regenerated + proved equal); sub_one / add_one / Not / negation inside the "
-              "IBig tables are C01's word-level models (cited theorems, w >= 8). Still hand-transcribed only: the straight-line "
-              "dispatch code around the loops in shift_ops.rs (shl_dword / shr_dword / shl_large / shr_large(_ref) bodies: their buffer "
-              "requests are regenerated, their arithmetic is tied by the run), set_bit / clear_bit / clear_high_bits / split_bits / "
-              "next_power_of_two_large / Repr::ones bodies, shr_in_place_one_word (unsafe pointer copy, an atom of the translator). "
+              "IBig tables are C01's word-level models (cited theorems, w >= 8). Round 5: the straight-line bodies of shift_ops.rs "
+              "(shl_dword .. shr_large_ref), set_bit / clear_bit / clear_high_bits / split_bits / next_power_of_two(_large) / Repr::ones "
+              "are regenerated with explicit cast / shift widths and proved equal to the hand models. Still atoms of the translators "
+              "(hand-transcribed, tied by the run only): shr_in_place_one_word (unsafe pointer copy), the skip_while iterator idiom of "
+              "next_power_of_two_large and its checked_add(..).and_then(..) (recognised literally, rendered as `zero every word below "
+              "the top, carry = one of them was non-zero`), math::shl_dword / ones_dword / ceil_div / split_dword / double_word, "
+              "leading_zeros / checked_next_power_of_two, the final transmute of Repr::ones (rendered as the heap constructor), Buffer "
+              "methods as list operations (capacity: C17); usize + - * / % are taken in Z without overflow (allocation sizes); and_not "
+              "in C17's machine; math::bit_len (literal match of its one-line body), the iterator idioms iter().map(count_ones / count_zeros).sum() and iter().all(== 0) of the typed methods (literal match; round 4 regenerates the count_ones fold), trailing_zeros / trailing_ones / count_ones / is_power_of_two of machine integers (Z functions of the same meaning). "
               "A 16-bit build cannot be made (force_bits=\"16\" fails const evaluation in integer/src/mul/ntt.rs): w = 16 is tied by "
               "the theorems (C09_w16_instances) and by the value comparison at w = 16 only.")
 TECHNIQUE = ("Coq proofs over source-regenerated sign tables, dispatch arms, primitive-instance table, buffer requests and LOOP KERNELS "
              "(loop-to-fold translation, generated = hand-written model proved for all inputs), and over hand-transcribed word-level as-is "
              "models; canonical-representation theorem; refinement to C17's storage machine (<<, >>, set/clear_bit, & | ^); IBig tables "
-             "closed at word level by citing C01's theorems; extracted-model correspondence run against a 64-bit and a 32-bit build")
+             "closed at word level by citing C01's theorems; straight-line bodies regenerated by a typed symbolic executor with explicit cast and "
+             "shift widths (generated = hand model = specification); extracted-model correspondence run against a 64-bit and a 32-bit build")
 RULE = ("cases = operation x operands drawn from word-count classes {0,1,2,3,4,5,8,T-1,T,T+1 for the size thresholds} of 64-bit words and "
         "{1..7} of 32-bit words x bit patterns {all-ones, 2^k, 2^k+-1, low words zero, top word 1/MAX, sparse, 0/MAX words, random} x "
         "both signs x all four by-value/by-reference operand combinations x both Assign forms; primitive operands of every type "
@@ -163,7 +205,10 @@ EXPLANATION = ("Theorems (coq/props/C09.v): the sign-case tables regenerated fro
                "compared with the answers of a 64-bit and a 32-bit build, including the layout of the result. Round 4: the loop kernels "
                "are regenerated from the source (coq/gen/BitsKernelsGen.v) and proved equal to the hand-written ones; C17's storage machine "
                "is refined for >> / clear_bit / & | ^ as well; the IBig tables run on (sign, words) throughout using C01's word-level "
-               "add_one / sub_one / neg / sub (cited theorems); counts beyond 2^32 are generated and judged by constant specifications.")
+               "add_one / sub_one / neg / sub (cited theorems); counts beyond 2^32 are generated and judged by constant specifications. "
+               "Round 5: the straight-line bodies of << >> set_bit clear_bit clear_high_bits split_bits next_power_of_two ones are "
+               "regenerated too (coq/gen/BitsBodiesGen.v), casts and machine shifts with their width, proved equal to the hand models "
+               "and to the specification; the run evaluates them on every such case.")
 TRUSTED_BASE = [
     "Coq 8.16.1 kernel (coqc; vm_compute only in the non-vacuity Examples of the word-level theorems)",
     "tools/translate.py renders the macro bodies impl_ibig_bit*/Not/Shr faithfully; dictionary: bitand->Z.land, bitor->Z.lor, bitxor->Z.lxor, and_not->Z.ldiff, sub_one->Z.pred, add_one->Z.succ, >> on magnitudes -> Z.shiftr, are_low_bits_nonzero -> (m mod 2^n <> 0); the entries for bitand/bitor/bitxor/and_not/>>/are_low_bits_nonzero are justified by theorems about the word-level models (C09_repr_bitand ... C09_are_low_bits_nonzero), sub_one/add_one belong to C01",
@@ -174,6 +219,7 @@ TRUSTED_BASE = [
     "the oracle runs the word-level models at w = 16, 32, 64 for the value of every answer and at the word size of the build (64 and 32) for the layout; a 16-bit build is not run (no such CONFIGS entry), w = 16 is covered by the theorems (universally quantified w) and by the value comparison",
     "C17's storage machine coq/theories/Int/StorageModel.v (definitions only) is used as the statement of the capacity discipline in C09_shl/shr/set_bit/clear_bit/orx/and_machine_is_kernel / C09_bit_kernel_requests_suffice",
     "tools/translate_c09_r4.py + the loop-to-fold translator tools/translate_c01_r4.py render the loop kernels of shift.rs / bits.rs / math.rs faithfully: for over iter_mut().zip(iter()) and over iter_mut().rev() as structural recursion, `while c { if d { break; } s }` as a fuelled loop on `c && !d`, `x OP= e` as `x = x OP e`, Buffer truncate / push_slice as firstn / ++, ensure_capacity dropped (C17), the idioms iter().map(f).sum() and iter().any(p) as explicit loops, Word/usize casts as Z.to_nat / Z.of_nat; atoms: split_dword, double_word, Word::trailing_zeros / trailing_ones / count_ones, `!` on a Word, Repr::from_buffer; anything else is reported unparsed (last good copy kept)",
+    "tools/translate_c09_r5.py renders the straight-line bodies of shift_ops.rs / bits.rs / repr.rs faithfully: let / shadowing / tuple patterns, if / else-if on usize comparisons (same operator), early return, Buffer mutation threaded through if / match arms, match on Small/Large, on [] / &[w] / &[lo, hi] / _ and on Option; Buffer allocate (request dropped: C17) / push / push_zeros / push_slice / push_zeros_front / erase_front / truncate / push_repeat::<{Word::MAX}> / push_resizing as list operations, `buffer[i] OP= e` and last_mut() as upd; `as u32` -> mod 2^32, `as usize` -> mod 2^uw, `as _` from the callee's parameter type read from math.rs, << >> on Word/DoubleWord with the count modulo the width and the result truncated, checked_shr(n).unwrap_or(v); usize arithmetic in Z without overflow; atoms: shl_in_place / shr_in_place (round-4 kernels), math::shl_dword, ones_word, ones_dword, ceil_div, split_dword, double_word, leading_zeros, checked_next_power_of_two, from_word / from_dword / from_buffer, the skip_while / checked_add idioms of next_power_of_two_large (literal match) and the transmute of Repr::ones; anything else is reported unparsed per function (last good copy kept, STALE)",
     "C01's word-level models Int/RingAdd.v (add_one_in_place, sub_one_in_place) and Int/RingOps.v (add_dword, repr_add, ibig_sub_asis, neg) are used as the models of sub_one / add_one / Repr::neg / IBig subtraction inside the C09 tables; their fidelity to add.rs / add_ops.rs is C01's obligation (C01_gen_add_one_word_dword regenerates add_one_in_place / sub_one_in_place)",
     "for shift counts / positions above 2^24 the driver uses the constant specifications justified by C09_shr_beyond_len / C09_bitops_beyond_len / C09_testbit_beyond_len_neg instead of evaluating Z.shiftr / 2^n, and skips the value-level table (which forms m mod 2^n); the word-level models run unchanged",
 ]
@@ -346,6 +392,14 @@ def gen_cases(rng, tier, n):
             if rng.chance(1, 3) and a:
                 a = 1 << (a.bit_length() - 1)
                 a += rng.choice([0, 0, 1, -1])
+            elif rng.chance(1, 3) and a.bit_length() > 64:
+                # a power of two in the top word plus ONE bit in a single lower word (the word just below the top, word 0, or any):
+                # the all-zero scan of is_power_of_two / the carry of next_power_of_two_large must look at every word below the top
+                top = a.bit_length() - 1
+                wsz = rng.choice([32, 64])
+                nw = top // wsz
+                j = rng.choice([nw - 1, nw - 1, 0, rng.below(nw)]) if nw > 0 else 0
+                a = (1 << top) | (1 << (j * wsz + rng.below(wsz))) if nw > 0 else a
             op = rng.choice(["is_pow2", "next_pow2"])
             out.append("%s %s" % (op, hx(max(a, 0))) if op == "is_pow2" else lay(rng, "%s %s" % (op, hx(max(a, 0)))))
         else:
